@@ -33,6 +33,11 @@ TRUSTED = [
     'packets handed over after EACH chunk, the packets, the undelivered remainder and the way the task ended with the '
     'chunked machine of the model; the except tuple of StreamFace.run is regenerated from the source (ast) into '
     'lean/NdnGen/C06.lean (streamCaught)',
+    'C06: the "future already done" guards of InterestTreeNode.nack_interest / satisfy (appv2: the guard of '
+    'PendingIntEntry.satisfy) are read off the source text into lean/NdnGen/C06.lean (nackDoneGuard, satisfyDoneGuard; '
+    'shapes recognised by props/pit_extract.py, anything else counts as absent) and demanded by `safe` (gen_safe); the '
+    'reception model itself holds live pending Interests only - a packet arriving in the loop turn in which its Interest '
+    'ended is covered by the oracle (`turn` cases) and by these guards, not by a model state',
     'C06: that the byte-level decoders (parse_lp_packet_v2, parse_tl_num, parse_interest, parse_data) raise only '
     '{DecodeError, IndexError, ValueError, struct.error, TypeError} is PROVED for every byte string for the decoder models '
     '(Ndn.Packet.decodePacket over the packet schemas regenerated from the live classes, Ndn.parseTlNum: C07 theorems '
@@ -1181,7 +1186,7 @@ LEVEL_TEXT = ('Lean 4 theorems over (a) a model of StreamFace.run / read_tl_num_
               'after every chunk exactly the complete elements received so far (never_partial_chunked, trace_chunked, '
               'handed_over_prefix), and an EOF / transport exception at any point hands over nothing more '
               '(reset_mid_packet); the except tuple of StreamFace.run is generated from the source; (b) a model of _receive/_on_nack/_on_data/_on_interest of both front-ends over abstract decoder '
-              'outcomes, with the except tuples, the missing-Fragment guard and the Nack-lookup guard generated from the live '
+              'outcomes, with the except tuples, the missing-Fragment guard, the Nack-lookup guard and the future-already-done guards of nack_interest / satisfy generated from the live '
               'source with ast: reception is total for every combination of decoder outcomes in the raisable set and every '
               'table state, a dropped packet leaves the tables unchanged and uncompleted pending Interests stay pending; and '
               'with the decoders instantiated by the byte-level decoder models of C07 (whose error classes are proved there '
